@@ -48,6 +48,8 @@ impl Compress {
             }
             let label_len = match packet[offset] {
                 len if len & 0xc0 == 0xc0 => {
+                    #[cfg(dnssector_verif)]
+                    crate::verif::tick(crate::verif::SITE_NAME_POINTER);
                     if refs_allowed <= 0 {
                         bail!(DSError::InvalidName("Too many indirections"));
                     }
@@ -72,6 +74,8 @@ impl Compress {
                 len if len > 0x3f => bail!(DSError::InvalidName("Label length too long")),
                 len => len as usize,
             };
+            #[cfg(dnssector_verif)]
+            crate::verif::tick(crate::verif::SITE_NAME_LABEL);
             if label_len >= packet_len - offset {
                 bail!(DSError::InvalidName("Out-of-bounds name"));
             }
@@ -106,6 +110,8 @@ impl Compress {
         let mut name_len = 0;
         let mut final_offset = None;
         loop {
+            #[cfg(dnssector_verif)]
+            crate::verif::tick(crate::verif::SITE_COPY_NAME);
             let label_len = match packet[offset] {
                 len if len & 0xc0 == 0xc0 => {
                     final_offset = final_offset.or(Some(offset + 2));
@@ -452,6 +458,8 @@ impl Compress {
     pub fn raw_name_len(name: &[u8]) -> usize {
         let mut i = 0;
         while name[i] != 0 {
+            #[cfg(dnssector_verif)]
+            crate::verif::tick(crate::verif::SITE_RAW_NAME_LEN);
             let len = name[i] as usize;
             if len & 0xc0 == 0xc0 {
                 i += 1;
@@ -467,6 +475,8 @@ impl Compress {
     pub fn raw_name_len_after_decompression(packet: &[u8], mut offset: usize) -> usize {
         let mut name_len = 0;
         loop {
+            #[cfg(dnssector_verif)]
+            crate::verif::tick(crate::verif::SITE_RAW_NAME_LEN);
             let label_len = match packet[offset] {
                 len if len & 0xc0 == 0xc0 => {
                     let new_offset = (BigEndian::read_u16(&packet[offset..]) & 0x3fff) as usize;
@@ -491,6 +501,8 @@ impl Compress {
         let mut indirections = 0;
         let mut res: Vec<u8> = Vec::with_capacity(64);
         loop {
+            #[cfg(dnssector_verif)]
+            crate::verif::tick(crate::verif::SITE_NAME_TO_STR);
             let label_len = match packet[offset] {
                 0 => break,
                 len if len & 0xc0 == 0xc0 => {
@@ -536,6 +548,8 @@ impl Compress {
         let initial_compressed_len = compressed.len();
         let final_offset = offset + uncompressed_name_len;
         loop {
+            #[cfg(dnssector_verif)]
+            crate::verif::tick(crate::verif::SITE_COMPRESS_NAME);
             let label_len = packet[offset] as usize;
             if label_len & 0xc0 == 0xc0 {
                 panic!("copy_compressed_name() called on an already compressed name");
@@ -619,6 +633,8 @@ impl SuffixDict {
             return None;
         }
         for i in 0..self.count {
+            #[cfg(dnssector_verif)]
+            crate::verif::tick(crate::verif::SITE_DICT);
             let candidate = &self.suffixes[i];
             if candidate.len <= suffix_len
                 && Self::raw_names_eq_ignore_case(suffix, &candidate.suffix[..candidate.len])
